@@ -99,6 +99,49 @@ func suiteTopK(c *Ctx) {
 	}
 	topkLarge(c, false)
 	topkLarge(c, true)
+	topkBinaryNames(c)
+}
+
+// topkBinaryNames: elements are byte strings.  Names that are not valid UTF-8 (a truncated
+// multi-byte sequence, raw binary identifiers differing only in such bytes) are tracked and
+// reported by Values byte for byte, identically on both backends.  (Export/Import of such names is
+// finding D23 and is not used here.)
+func topkBinaryNames(c *Ctx) {
+	names := [][]byte{[]byte("caf\xc3"), []byte("\xff\x01id"), []byte("\xfe\x01id"), []byte("plain"), {0x80}, {0xc0, 0xaf}}
+	want := map[string]uint64{}
+	var got [2]string
+	for bi, redis := range []bool{false, true} {
+		t := newTopK(10, 0.001, 0.5, redis)
+		if t == nil {
+			return
+		}
+		c.rep.Cases++
+		for i, n := range names {
+			cnt := uint64(10 - i)
+			t.Insert(n, cnt)
+			t.Insert(n, 1)
+			want[string(n)] = cnt + 1
+		}
+		vals, err := t.Values()
+		if err != nil {
+			c.fail([]string{"C04", "C08"}, "topk-values-fails", err.Error(), "binary names")
+			return
+		}
+		got[bi] = fmt.Sprintf("%q", vals)
+		ok := len(vals) == len(names)
+		for _, v := range vals {
+			if want[v.V] != v.F {
+				ok = false
+			}
+		}
+		if !ok {
+			c.fail([]string{"C04", "C08"}, "topk-binary-names", fmt.Sprintf("topk(k=10,redis=%v): six distinct byte strings (some not valid UTF-8) inserted with counts 11..6; Values reports %q", redis, vals), fmt.Sprintf("%q", names))
+		}
+	}
+	if got[0] != got[1] {
+		c.fail([]string{"C08", "C04"}, "topk-binary-names", fmt.Sprintf("the same inserts of byte strings that are not valid UTF-8: in memory %s, Redis %s", got[0], got[1]), fmt.Sprintf("%q", names))
+	}
+	c.branch("binary-names")
 }
 
 // topkLarge: more tracked entries than any page / batch size an implementation might read the
